@@ -70,12 +70,30 @@ def build_keys(acc):
         for suffix in ("", "/2"):
             d = 1 + seeded_int("c04/%s/d%s" % (cn, suffix), n.bit_length() + 64) % (n - 1)
             ks[cn + suffix] = {"kind": "ec", "name": cn + suffix, "curve": cn, "d": d}
+    # boundary private keys 1, 2, order-2, order-1 of every domain / curve (public keys g, g^2, g^-2, g^-1 resp. G, 2G, -2G, -G:
+    # the points closest to the shortcuts of the group arithmetic).  Their "other key" is the key with the negated
+    # public point, and their public half is rebuilt from the reference's numbers instead of taken from the key object.
+    for base in [n for n, _, _ in DSA_FIXT] + ["dsa2048_256"] + list(CURVES):
+        kd = ks[base]
+        q = order(kd)
+        pairs = (("1", 1, "q-1"), ("2", 2, "q-2"), ("q-2", q - 2, "2"), ("q-1", q - 1, "1"))
+        for tag, val, partner in pairs:
+            name = "%s/x=%s" % (base, tag)
+            if kd["kind"] == "dsa":
+                ks[name] = dict(kd, name=name, x=val, y=pow(kd["g"], val, kd["p"]), boundary=True)
+            else:
+                ks[name] = {"kind": "ec", "name": name, "curve": kd["curve"], "d": val, "boundary": True, "pubxy": True}
+        for tag, val, partner in pairs:
+            ks["%s/x=%s/2" % (base, tag)] = ks["%s/x=%s" % (base, partner)]
     _KEYS = ks
     return ks
 
 
+BOUNDARY = ("1", "2", "q-2", "q-1")
+
+
 def keymat(kd):
-    return {k: v for k, v in kd.items() if k in ("kind", "name", "p", "q", "g", "x", "y", "curve", "d")}
+    return {k: v for k, v in kd.items() if k in ("kind", "name", "p", "q", "g", "x", "y", "curve", "d", "pubxy")}
 
 
 def order(kd):
@@ -100,7 +118,11 @@ def libkey(kd, private=True):
         else:
             from Crypto.PublicKey import ECC
             key = ECC.construct(curve=kd["curve"], d=kd["d"])
-        ent = _LIB[ident] = (key, key.public_key())
+        pub = key.public_key()
+        if kd.get("pubxy"):
+            Q = ref_Q(kd)
+            pub = ECC.construct(curve=kd["curve"], point_x=Q[0], point_y=Q[1])
+        ent = _LIB[ident] = (key, pub)
     return ent[0] if private else ent[1]
 
 
@@ -180,6 +202,10 @@ def _key_script(kd):
     if kd["kind"] == "dsa":
         return ("from Crypto.PublicKey import DSA\nkey = DSA.construct((%d, %d, %d, %d, %d))\n"
                 % (kd["y"], kd["g"], kd["p"], kd["q"], kd["x"]))
+    if kd.get("pubxy"):
+        Q = ref_Q(kd)
+        return ("from Crypto.PublicKey import ECC\n# public key of d = %d\nkey = ECC.construct(curve=%r, point_x=%d, point_y=%d)\n"
+                % (kd["d"], kd["curve"], Q[0], Q[1]))
     return "from Crypto.PublicKey import ECC\nkey = ECC.construct(curve=%r, d=%d)\n" % (kd["curve"], kd["d"])
 
 
